@@ -53,6 +53,7 @@ func checkC06(r *Report, p *Program) {
 	r02_1(r, p, computeChildRoles(p))
 	oneWritePerChild(r, p, "R06.6")
 	deleteTable(r, p, "R06.7")
+	createTable(r, p, "R06.10")
 	strategyMapTable(r, p, "R06.8")
 	lastAppliedIsHookAnswer(r, p, "R06.9")
 	// an attachment the decorator creates is recognised as its own on the next sync (marker stamped) — else no method ever applies to it (shared with C16)
@@ -193,6 +194,34 @@ func r06_1(r *Report, p *Program) {
 			}
 			sort.Slice(rows, func(i, j int) bool { return rows[i].Method < rows[j].Method })
 			r.Table(sf("R06.1 %s", Short(construct)), rows)
+			// … and the table is the only way to an Update/Delete of an existing child in this loop: a write of
+			// those verbs that can be reached without passing the GetMethod call bypasses the strategy altogether
+			if loop != nil {
+				for _, b := range f.Blocks {
+					for _, in := range b.Instrs {
+						if !isSink(in) || engine.EnclosingLoop(loops, in) != loop {
+							continue
+						}
+						vs := verbsOf([]ssa.Instruction{in})
+						if ci, isC := in.(ssa.CallInstruction); isC {
+							if _, _, isS := engine.ClassifySink(engine.CallKey(ci.Common())); !isS {
+								vs = nil
+								for _, sg := range calleeVerbSigs(p, engine.StaticFn(ci.Common()), 1) {
+									vs = append(vs, strings.Split(sg, ",")...)
+								}
+							}
+						}
+						if count(vs, "Update")+count(vs, "Delete") == 0 {
+							continue
+						}
+						sink := in
+						w := engine.Query{Fn: f, From: []engine.Point{{B: loop.Header, I: 0}}, CutInstr: func(x ssa.Instruction) bool { return x == gm.Instr },
+							Target: func(x ssa.Instruction) bool { return x == sink }}.Find()
+						r.Check(rule, sf("%s[behind-the-switch]@%s", construct, engine.Short(engine.CallKey(in.(ssa.CallInstruction).Common()))), p.InstrPos(in), w == nil,
+							"reached only through the update-method switch", "an existing child is updated/deleted on a path that never asks the child type's update strategy (the write is reachable without passing GetMethod)")
+					}
+				}
+			}
 
 			for val, verb := range want {
 				c := sf("%s[method=%q]", construct, val)
